@@ -39,9 +39,9 @@ func runC19(r *core.Run) {
 	defer rangesNeverEdited(r, "R19.10")
 	r.Rule("R19.11", "Target.Version fails when the evaluation fails", 1, false)
 	defer func() {
-	r.Rule("R19.12", "a version is evaluated and answered as given: the constructor stores the specification, Has returns the record", 2, false)
-	defer specStoredAsGiven(r, "R19.12")
-	defer hasIsTheRecord(r, "R19.12")
+		r.Rule("R19.12", "a version is evaluated and answered as given: the constructor stores the specification, Has returns the record", 2, false)
+		defer specStoredAsGiven(r, "R19.12")
+		defer hasIsTheRecord(r, "R19.12")
 		p := r.Prog
 		fn := p.Func("capability", "Target", "Version")
 		for _, c := range callsTo(fn, p.Func("capability", "Target", "SetCapabilities")) {
